@@ -175,7 +175,9 @@ CLAIMS = {
         text=("Kernel-checked theorems about the path arithmetic of every exclusion / ignore / exemption site: built-in exclusion, "
               "the path handed to repository ignore patterns and path-string exemptions are functions of the path inside the project "
               "for every location of the project (hardExcluded_relocate, checkPath_relocate, markerHit_relocate), with a decided "
-              "witness that a full-path substring test does depend on the location. The modelled functions are run against /repo's "
+              "witness that a full-path substring test does depend on the location; every spelling of a location resolves to the same path "
+              "(dot_is_neutral, name_dotdot_cancels, relative_eq_absolute, resolve_idempotent, spelling_does_not_change_decisions; the "
+              "model's resolution is compared with the operating system's on every spelling used). The modelled functions are run against /repo's "
               "(_directory_parts_in_project, _is_hardcoded_excluded, path_in_project) on generated (root, file) pairs, and the whole "
               "tool is run on one project under every excluded-directory name and test/ignore marker x 6 path spellings x every "
               "command (thorough: exhaustive, 3120 runs). Four genuine defects repaired (fix: bd0e3d3, 890ad2f, a20090b)."),
